@@ -15,6 +15,9 @@ import (
 func init() {
 	f := "internal/native/wat2x64/func.go"
 	register(&Property{ID: "C02", Run: runC02, Mutants: []Mutant{
+		{Name: "x64 br_table pops the carried results before locating them", File: "internal/native/wat2x64/func.go", Old: "\t\t\t// 和 br 指令一样, 返回值保留在栈上: 每个分支按栈顶位置搬运, block 结束时统一重置栈\n", New: "\t\t\tfor k := len(defaultScopeContex.Result) - 1; k >= 0; k-- {\n\t\t\t\tstk.Pop(defaultScopeContex.Result[k])\n\t\t\t}\n", Expect: "branch-arm-model-balance :: wat2x64 INS_BR_TABLE"},
+		{Name: "riscv br_table pops the carried results before locating them", File: "internal/native/wat2rv/func.go", Old: "\t\t\t// 和 br 指令一样, 返回值保留在栈上: 每个分支按栈顶位置搬运, block 结束时统一重置栈\n", New: "\t\t\tfor k := len(defaultScopeContex.Result) - 1; k >= 0; k-- {\n\t\t\t\tstk.Pop(defaultScopeContex.Result[k])\n\t\t\t}\n", Expect: "carried-results-located :: wat2rv INS_BR_TABLE"},
+		{Name: "loong64 br_table demands two labels", File: "internal/native/wat2la/func.go", Old: "\t\tassert(len(i.XList) >= 1)\n", New: "\t\tassert(len(i.XList) > 1)\n", Expect: "br-table-accepts-default-only :: wat2la"},
 		{Name: "x64 locals zeroed with a dword store", File: "internal/native/wat2x64/func.go", Old: "mov qword ptr [rbp%+d], 0 # local %s = 0", New: "mov dword ptr [rbp%+d], 0 # local %s = 0", Expect: "x64-local-init-width"},
 		{Name: "x64 element offset not scaled", File: "internal/native/wat2x64/table.go", Old: "off := (int(elem.Offset) + j) * IntSize", New: "off := int(elem.Offset) + j*IntSize", Expect: "x64-elem-offset-scaled"},
 		{Name: "x64 memory-return prologue stores rcx under every ABI", File: "internal/native/wat2x64/func.go", Old: "fnNative.Type.Return[1].Reg == 0 && p.cpuType == abi.X64Windows {", New: "fnNative.Type.Return[1].Reg == 0 {", Expect: "x64-caller-area-store-abi"},
@@ -343,7 +346,7 @@ func runC02(c *Ctx) {
 			nPop, nPush = nPop+a, nPush+b
 		}
 	}
-	c.Min("list-stack-order", "loops that pop a list of operands in the native translators", nPop, 20)
+	c.Min("list-stack-order", "loops that pop a list of operands in the native translators", nPop, 16)
 	c.Min("list-stack-order", "loops that push a list of operands in the native translators", nPush, 36)
 	nLabels := 0
 	for _, tr := range translators {
@@ -359,6 +362,17 @@ func runC02(c *Ctx) {
 		}
 	}
 	c.Min("overlap-copy-direction", "result-moving loops of the native translators", nCopy, 12)
+	nLocated, nBalance, nDefault := 0, 0, 0
+	for _, tr := range translators {
+		if pk := p.Pkg(tr.pkg); pk != nil && tr.name != "wat2c" {
+			nLocated += carriedResultsLocated(c, p, pk, tr.name)
+			nBalance += branchArmModelBalance(c, p, pk, tr.name)
+			nDefault += brTableAcceptsDefaultOnly(c, p, pk, tr.name)
+		}
+	}
+	c.Min("carried-results-located", "result moves in the branch arms of the native translators", nLocated, 12)
+	c.Min("branch-arm-model-balance", "branch arms of the native translators that mark the block as left by a branch", nBalance, 12)
+	c.Min("br-table-accepts-default-only", "br_table arms of the native translators", nDefault, 4)
 	nLoops := 0
 	for _, tr := range translators {
 		if pk := p.Pkg(tr.pkg); pk != nil && tr.name != "wat2c" {
